@@ -46,15 +46,26 @@ Print Assumptions C15_tointeger_saturates.
 (* ToFloat is the counterpart Number for every scalar *)
 Theorem C15_tofloat_counterpart : forall sn g,
   to_float sn (toValue false g) = Ok (spec_to_float sn g) /\
-  (wf g -> (forall b, g <> GF32 b) -> to_float sn (toValue true g) = Ok (spec_to_float sn g)).
+  (wf g -> to_float sn (toValue true g) = Ok (spec_to_float sn g)).
 Proof. intros sn g. split; [exact (to_float_agrees sn g) | exact (to_float_agrees_refl sn g)]. Qed.
 Print Assumptions C15_tofloat_counterpart.
 
-Theorem C15_toboolean_agrees : forall g,
-  to_boolean (toValue false g) = spec_to_boolean g /\
-  ((forall b, g <> GF32 b) -> wf g -> to_boolean (toValue true g) = spec_to_boolean g).
+(* ToInteger of every float (float32 included, on either branch), bool and nil is that of the counterpart *)
+Theorem C15_tointeger_nonint : forall sn refl g, (forall k n, g <> GInt k n) ->
+  to_integer sn (toValue refl g) = Ok (spec_to_integer sn g).
+Proof. exact to_integer_nonint. Qed.
+Print Assumptions C15_tointeger_nonint.
+
+Theorem C15_toboolean_agrees : forall refl g, wf g ->
+  to_boolean (toValue refl g) = spec_to_boolean g.
 Proof. exact to_boolean_agrees. Qed.
 Print Assumptions C15_toboolean_agrees.
+
+(* MarshalJSON is JSON.stringify of the counterpart for every scalar, NaN and the infinities included *)
+Theorem C15_marshaljson_counterpart : forall fs js g,
+  marshal_json fs js (toValue false g) = spec_marshal_json fs js g.
+Proof. exact marshal_json_agrees. Qed.
+Print Assumptions C15_marshaljson_counterpart.
 
 (* IsUndefined/IsNull/IsBoolean/IsNumber/IsString agree with typeof of the counterpart *)
 Theorem C15_predicates_agree : forall refl g,
@@ -76,27 +87,21 @@ Theorem C15_export_typed_slice_rule : forall l T, T <> TIface ->
 Proof. exact finish_typed_iff. Qed.
 Print Assumptions C15_export_typed_slice_rule.
 
-(* whenever Export returns, it returns what the rule prescribes ([]T iff all same type, else []interface{}) *)
-Theorem C15_export_follows_rule : forall l r, finish l = Ok r -> r = finish_spec l.
-Proof. exact finish_agrees_spec. Qed.
+(* Export of an array always returns (reflect's Set into the typed slice cannot fail) and returns what
+   the rule prescribes: []T iff non-empty and all elements of one type T, else []interface{} *)
+Theorem C15_export_follows_rule : forall l, finish l = Ok (finish_spec l).
+Proof. exact finish_total. Qed.
 Print Assumptions C15_export_follows_rule.
 
-(* it fails to return only on two elements with equal kind triples and different types ... *)
-Theorem C15_export_panic_only : forall l, finish l = Panic ->
-  exists a b, In a l /\ In b l /\ triple_of (type_of a) = triple_of (type_of b) /\ type_of a <> type_of b.
-Proof. exact finish_panic_only. Qed.
-Print Assumptions C15_export_panic_only.
-
-(* ... which cannot happen when the elements are scalars, objects or arrays of scalars/objects *)
-Theorem C15_export_shallow_total : forall l,
-  Forall (fun y => shallow (type_of y) = true) l -> finish l = Ok (finish_spec l).
-Proof. exact finish_shallow_total. Qed.
-Print Assumptions C15_export_shallow_total.
+(* Export never panics, whatever the script data, to any depth *)
+Theorem C15_export_total : forall v, exists r, export_m v = Ok r.
+Proof. exact export_total. Qed.
+Print Assumptions C15_export_total.
 
 (* Export of JSON-like data is structurally equal to the data, to any depth *)
-Theorem C15_export_jsonlike : forall v r,
-  jsonlike v = true -> export_m v = Ok r -> proj_gv r = proj_jv v.
-Proof. exact export_jsonlike. Qed.
+Theorem C15_export_jsonlike : forall v, jsonlike v = true ->
+  exists r, export_m v = Ok r /\ proj_gv r = proj_jv v.
+Proof. exact export_jsonlike_total. Qed.
 Print Assumptions C15_export_jsonlike.
 
 (* ---------- bindings: a read sees the last write, whatever came before ---------- *)
@@ -138,24 +143,6 @@ Proof.
 Qed.
 Print Assumptions C15_uint64_tointeger_saturates.
 
-(* a float32 payload (named float32 type, *float32) makes ToFloat panic *)
-Theorem C15_float32_reflect_refuted : exists b,
-  to_float (fun _ => 0) (toValue true (GF32 b)) <> Ok (spec_to_float (fun _ => 0) (GF32 b)).
-Proof. exists 0x3F000000. vm_compute. discriminate. Qed.
-Print Assumptions C15_float32_reflect_refuted.
-
-(* a float32 NaN payload is truthy *)
-Theorem C15_float32_nan_truthy_refuted : exists b,
-  to_boolean (toValue true (GF32 b)) <> spec_to_boolean (GF32 b).
-Proof. exists nan32_bits. vm_compute. discriminate. Qed.
-Print Assumptions C15_float32_nan_truthy_refuted.
-
-(* MarshalJSON of NaN is an error, JSON.stringify gives null *)
-Theorem C15_marshal_nan_refuted : exists b fs js,
-  marshal_json fs js (toValue false (GF64 b)) <> spec_marshal_json fs js (GF64 b).
-Proof. exists nan_bits, (fun _ => []), (fun s => s). vm_compute. discriminate. Qed.
-Print Assumptions C15_marshal_nan_refuted.
-
 (* scripts see the exact digits of a wide integer, not the text of the Number it is *)
 Theorem C15_wide_int_text_refuted : exists n, in_range KInt64 n /\
   to_string (fun _ => []) (toValue false (GInt KInt64 n)) <> decimal (round_to_double n).
@@ -166,19 +153,24 @@ Proof.
 Qed.
 Print Assumptions C15_wide_int_text_refuted.
 
-(* [[[1]],[[1.5]]]: Export panics *)
-Theorem C15_export_nested_panic_refuted : exists v, export_m v = Panic /\ jsonlike v = true.
-Proof.
-  exists (JArr [Some (JArr [Some (JArr [Some (JNumI KInt64 1)])]);
-                Some (JArr [Some (JArr [Some (JNumF 0x3FF8000000000000)])])]).
-  split; vm_compute; reflexivity.
-Qed.
-Print Assumptions C15_export_nested_panic_refuted.
-
 (* [1,,2]: the hole is dropped *)
 Theorem C15_export_holes_refuted : exists v, export_m v <> Ok (export_s v).
 Proof. exists (JArr [Some (JNumI KInt64 1); None; Some (JNumI KInt64 2)]). vm_compute. discriminate. Qed.
 Print Assumptions C15_export_holes_refuted.
+
+(* regression witnesses of repaired defects: [[[1]],[[1.5]]] exports as []interface{} of two typed slices;
+   a float32 payload converts; NaN marshals as null *)
+Example C15_export_nested_regression :
+  export_m (JArr [Some (JArr [Some (JArr [Some (JNumI KInt64 1)])]);
+                  Some (JArr [Some (JArr [Some (JNumF 0x3FF8000000000000)])])]) =
+  Ok (XSlice TIface [XSlice (TSlice (TInt KInt64)) [XSlice (TInt KInt64) [XInt KInt64 1]];
+                     XSlice (TSlice TF64) [XSlice TF64 [XF64 0x3FF8000000000000]]]).
+Proof. vm_compute. reflexivity. Qed.
+Example C15_float32_regression :
+  to_float (fun _ => 0) (toValue true (GF32 0x3F000000)) = Ok 0x3FE0000000000000 /\
+  to_boolean (toValue true (GF32 nan32_bits)) = false /\
+  marshal_json (fun _ => []) (fun s => s) (toValue false (GF64 nan_bits)) = Some str_null.
+Proof. vm_compute. repeat split; reflexivity. Qed.
 
 (* non-vacuity *)
 Example C15_typed_rule_met :
